@@ -116,7 +116,7 @@ func (e *Ev) evGhostCall(x *ast.CallExpr) Val {
 		return VBool{fmt.Sprintf("(forall ((%s BSeq)) %s)", kn, body)}
 	case "before":
 		if e.beforeEv == nil {
-			e.unsupp(x, "before() is only meaningful in a step clause")
+			e.unsupp(x, "before() is only meaningful in a step clause or a loop hint")
 		}
 		o := *e.beforeEv
 		o.bound = e.bound
